@@ -112,12 +112,17 @@ def finalPhase (visitF : Mode → FT → List Choice → FT × List Choice) (m :
   | .L => visitAllL visitF kids cs
   | .S => (kids, cs)
 
-/-- a miss on a box-generating node: scripted visits, final-layout phase, scripted visits -/
+/-- a miss on a box-generating node: scripted visits, final-layout phase, scripted visits.
+The second scripted phase is closed by its own `done` marker (consumed here), so that the part of the stream a
+recomputed node reads is self-delimiting: without it a recomputed child hands its parent a stream whose head is not a
+`step`, which ends the parent's scripted phase, and a parent could recompute at most one child per scripted phase
+(`C15Refine.old_recompute_too_rigid`; a flex container measuring three leaves is not such a resolution). -/
 def recompute (visitF : Mode → FT → List Choice → FT × List Choice) (m : Mode) (kids : List FT) (cs : List Choice) :
     List FT × List Choice :=
   let r1 := steps visitF kids cs
   let r2 := finalPhase visitF m r1.1 r1.2
-  steps visitF r2.1 (dropDone r2.2)
+  let r3 := steps visitF r2.1 (dropDone r2.2)
+  (r3.1, dropDone r3.2)
 
 /-- a lookup reaching node `t` in run mode `m` -/
 def visit : Nat → Mode → FT → List Choice → FT × List Choice
